@@ -110,6 +110,12 @@ def judge_hist(prog: Program, run: dict[str, Any], info: dict[str, Any]) -> list
         problems.append(("not-quiescent", f"run did not quiesce: {run.get('end') or run['res'].aborted}", "noquiesce"))
         return one_violation("C18", problems, h)
     crashes = len(run.get("crash_marks") or [])
+    from sim.oracles import check_ledger_unique
+
+    for x in check_ledger_unique(h, "C18", run.get("crash_marks") or []):
+        if sus in x["msg"]:
+            problems.append(("suspending-task-step-repeated", x["msg"], "dup-step:" + x["sig"].rsplit(":", 1)[-1]))
+            break
     if sent and persistent:
         if not sig_handled:
             problems.append(("signal-never-handled", "the persistent signal was queued but SignalStage never committed", "unhandled"))
@@ -120,6 +126,8 @@ def judge_hist(prog: Program, run: dict[str, Any], info: dict[str, Any]) -> list
                                  f"workflow {fs['wf_status']}, suspends={len(suspends)}", "lost"))
         elif len(resumed) > 1 + crashes:
             problems.append(("resumed-twice", f"one persistent signal, {len(resumed)} resumed executions ({crashes} crash(es))", "resumed-twice"))
+        elif len(resumed) > 1 and not any(any(a["i"] < m <= b["i"] for m in (run.get("crash_marks") or [])) for a, b in zip(resumed, resumed[1:])):
+            problems.append(("resumed-twice", f"one persistent signal, {len(resumed)} resumed executions, and no crash lies between them", "resumed-twice-nocrash"))
         if len(resumes) > 1:
             problems.append(("resumed-twice", f"stage S went SUSPENDED->RUNNING {len(resumes)} times for one signal", "resume-transitions"))
         for e in resumed:
@@ -152,16 +160,55 @@ class C18D(DCheck):
 
 
 def _run_d(ch: Choices, tier: str) -> tuple[Program, dict[str, Any], dict[str, Any]]:
-    """D/K flavour with a second drain after a late send."""
+    """D/K flavour with a second drain after a late send; 40% of the runs place the crash on a commit of a
+    RunTask handling (the suspend / resume steps) found in a signal-free reference run, restart with or without
+    lapsing the locks first, and send the signal a few steps after the restart."""
+    from sim.engine_d import DOpts
+
     from .common import run_exec, swarm_opts
 
     prog = make_program(ch, tier)
     knobs = swarm_knobs(ch)
     opts = swarm_opts(ch)
     info: dict[str, Any] = {"engine": "D"}
+    targeted = ch.flip("c18.targeted", 0.4)
+    target_commit = None
+    if targeted:
+        refr = run_exec(prog, knobs, Choices(ch.seed, replay=[]), DOpts(), max_steps=600,
+                        post=lambda ex, fs: {"ctx": [c.ctx for c in ex.world.commits], "client": ex.eng.client_commits})
+        cands = [i + 1 for i, c in enumerate(refr["post"]["ctx"]) if "|RunTask|" in c]
+        if cands:
+            target_commit = cands[ch.pick("c18.tc", len(cands))] + ch.pick("c18.tcoff", 3) - 1
+            info["targeted_crash_commit"] = target_commit
+        opts.lapse_p = ch.choice("c18.lapse", [0.0, 0.3, 0.6])
+        opts.reorder_p = ch.choice("c18.reorder", [0.0, 0.5])
 
     def st(ex: Exec) -> None:
         setup(ex, ch, info)
+        if target_commit is not None:
+            w = ex.world
+            w.crash_at = (max(ex.eng.client_commits + 1, target_commit), ch.choice("c18.tcwhen", ["after", "before"]))
+            ex.lapse_first = bool(ch.pick("c18.lapsefirst", 2))  # type: ignore[attr-defined]
+            info["lapse_first"] = ex.lapse_first  # type: ignore[attr-defined]
+            after = ch.pick("c18.sigafter", 6)
+            state = {"crashed_at_step": None, "n": 0}
+            inner = ex.eng.between
+
+            def hook(e: Exec) -> None:
+                state["crashed_at_step"] = state["n"]
+
+            ex.on_crash_hook = hook  # type: ignore[attr-defined]
+
+            def between(eng: Any) -> None:
+                state["n"] += 1
+                if state["crashed_at_step"] is not None and not info["sent"] and state["n"] >= state["crashed_at_step"] + after:
+                    send(w, ex.wf_id, info["persistent"], "sig1")
+                    info["sent"] = True
+                    return
+                if state["crashed_at_step"] is None and inner is not None and not targeted:
+                    inner(eng)
+
+            ex.eng.between = between
         orig_run = ex.run
 
         def run_twice(max_steps: Any = None, on_crash: Any = None, sweeps: int = 1) -> Any:
